@@ -295,7 +295,7 @@ def _cfgname(r):
 
 def _c05_runs(tier):
     if tier == "quick":
-        cfgs = [R("simd"), R("simd", dispatch="serial"), R("serial32"), R("serial32", "rel-notables"), R("avx512"), R("fiat64"), R("simd", "rel-nozeroize")]
+        cfgs = [R("simd"), R("simd", dispatch="serial"), R("serial32"), R("serial32", "rel-notables"), R("avx512"), R("fiat64"), R("fiat32"), R("simd", "rel-nozeroize")]
         streams = ["C02", "C04", "C07", "C08", "C09", "C12", "C16"]
     else:
         cfgs = []
